@@ -38,8 +38,11 @@ func (w *World) genValue(a *Account, key []byte) []byte {
 		if !verif.Bool("nonce.present") {
 			return nil
 		}
-		// 8 big-endian bytes (leading zeros allowed): covers every counter value
-		return verif.Bytes("nonce.value", 8)
+		// big-endian bytes (leading zeros allowed); 8 bytes cover every counter value
+		if w.Cfg.Thin {
+			return verif.Bytes("nonce.value", 1)
+		}
+		return verif.BytesOf("nonce.value", 8, 1)
 	}
 	n := w.Cfg.RawOther
 	if n == 0 {
